@@ -23,6 +23,8 @@ enum Family {
     F_BOOLEAN,
     F_WIDE,
     F_JOIN, // several roots, a chain under each, classes joining the chains
+    F_SKEW, // a class joining a shallow and a deep branch, next to a short
+            // chain: winners with fewer bases in total than the losers
     F_COUNT
 };
 
@@ -161,6 +163,25 @@ struct Gen {
                 p.w.parents[i].assign(s.begin(), s.end());
                 if (r.chance(0.4))
                     chains[which[0]].push_back(i); // grows below the join
+            }
+        }
+        if (family == F_SKEW && n >= 8) {
+            // 0 <- 1 (chain A0, A1); 2 = Role; 3 = S : Role; 4 <- 5 <- 6 = R
+            // (deep, under Role); 7 = J : S, R; the rest hangs anywhere
+            for (auto& par : p.w.parents)
+                par.clear();
+            p.w.parents[1] = {0};
+            p.w.parents[3] = {2};
+            p.w.parents[4] = {2};
+            p.w.parents[5] = {4};
+            p.w.parents[6] = {5};
+            p.w.parents[7] = {3, 6};
+            for (int i = 8; i < n; ++i) {
+                int k = r.range(1, 2);
+                std::set<int> s;
+                for (int j = 0; j < k; ++j)
+                    s.insert((int)r.below(i));
+                p.w.parents[i].assign(s.begin(), s.end());
             }
         }
         if (family == F_BOOLEAN) {
@@ -576,6 +597,7 @@ struct BasicOpts {
 };
 
 std::vector<int> nontransitive_gadget(Gen& g, int pi, const std::set<int>& used_slots);
+std::vector<int> skew_gadget(Gen& g, int pi, const std::set<int>& used_slots);
 
 // one policy, one world, one registry; fills g.p.recs and returns all records
 std::vector<int> basic_registry(Gen& g, const BasicOpts& o, int pi) {
@@ -597,11 +619,17 @@ std::vector<int> basic_registry(Gen& g, const BasicOpts& o, int pi) {
         for (int di : g.defs(pi, mi, nd, o.focus))
             all.push_back(di);
     }
+    std::set<int> used(slots.begin(), slots.end());
     if (g.r.chance(o.p_gadget)) {
-        std::set<int> used(slots.begin(), slots.end());
-        for (int ri : nontransitive_gadget(g, pi, used))
+        for (int ri : nontransitive_gadget(g, pi, used)) {
             all.push_back(ri);
+            if (g.p.recs[ri].kind == RK_METHOD)
+                used.insert(g.p.recs[ri].slot);
+        }
     }
+    if (g.r.chance(o.p_gadget))
+        for (int ri : skew_gadget(g, pi, used))
+            all.push_back(ri);
     return all;
 }
 
@@ -676,9 +704,76 @@ std::vector<int> nontransitive_gadget(Gen& g, int pi, const std::set<int>& used_
     return out;
 }
 
+// A two-parameter method with definitions X = (A1, S), Y = (A0, R) and
+// D = (A1, J), where A1 derives from A0, J derives from the unrelated S and R,
+// and R has more bases than S: X is more specific than Y (first position; the
+// second is ignored, S and R being unrelated) although Y's classes have more
+// bases in total. next(D) = X; the call (A1, J) runs D.
+std::vector<int> skew_gadget(Gen& g, int pi, const std::set<int>& used_slots) {
+    std::vector<int> out;
+    int n = g.p.w.ncls;
+    static const int two_ary[] = {4, 5, 12, 16, 17};
+    std::vector<int> slots;
+    for (int s : two_ary)
+        if (!used_slots.count(s))
+            slots.push_back(s);
+    if (slots.empty() || n < 6)
+        return out;
+    auto weight = [&](int c) { return __builtin_popcount(g.anc[c]); };
+    auto related = [&](int x, int y) {
+        return ((g.anc[x] >> y) & 1u) || ((g.anc[y] >> x) & 1u);
+    };
+    for (int t = 0; t < 400; ++t) {
+        int A0 = (int)g.r.below(n), A1 = (int)g.r.below(n);
+        int S = (int)g.r.below(n), R = (int)g.r.below(n);
+        if (A1 == A0 || !((g.anc[A1] >> A0) & 1u))
+            continue;
+        if (S == R || related(S, R))
+            continue;
+        if (weight(A0) + weight(R) <= weight(A1) + weight(S))
+            continue;
+        std::uint32_t joins = g.desc[S] & g.desc[R];
+        std::uint32_t tops = g.anc[S] & g.anc[R];
+        if (!joins || !tops)
+            continue;
+        auto js = g.bits(joins);
+        auto ts = g.bits(tops);
+        int J = js[g.r.below(js.size())];
+        int P1 = ts[g.r.below(ts.size())];
+        auto a0s = g.bits(g.anc[A0]);
+        int P0 = a0s[g.r.below(a0s.size())];
+        Rec m;
+        m.kind = RK_METHOD;
+        m.pol = pi;
+        m.slot = slots[g.r.below(slots.size())];
+        m.vp = {P0, P1};
+        int mi = g.add(m);
+        out.push_back(mi);
+        int defs[3][2] = {{A1, S}, {A0, R}, {A1, J}};
+        int order[3] = {0, 1, 2};
+        for (int i = 2; i > 0; --i)
+            std::swap(order[i], order[g.r.below(i + 1)]);
+        for (int k = 0; k < 3; ++k) {
+            int d = order[k];
+            Rec def;
+            def.kind = RK_DEF;
+            def.pol = pi;
+            def.meth = mi;
+            def.body = d;
+            def.vp = {defs[d][0], defs[d][1]};
+            out.push_back(g.add(def));
+        }
+        return out;
+    }
+    return out;
+}
+
 void basic_world(Gen& g, const BasicOpts& o, bool small_only) {
     int fam = o.family >= 0 ? o.family : g.pick_family();
-    int n = g.pick_ncls(fam, o.min_cls, o.max_cls);
+    if (o.family < 0 && o.p_gadget > 0 && g.r.chance(0.1))
+        fam = F_SKEW;
+    int n = g.pick_ncls(fam, fam == F_SKEW ? std::max(8, o.min_cls) : o.min_cls,
+                        fam == F_SKEW ? std::max(10, o.max_cls) : o.max_cls);
     g.world(n, fam, o.p_abstract);
     g.ids(g.pick_idfam(small_only), o.max_alias);
     g.p.profile += "/fam" + std::to_string(fam) + "/id" + std::to_string(g.idfam);
